@@ -494,7 +494,7 @@ impl Check for C09 {
     }
     fn budget(&self, tier: Tier) -> Budget {
         match tier {
-            Tier::Quick => Budget { runs: 50_000, wall_s: 60 },
+            Tier::Quick => Budget { runs: 150_000, wall_s: 90 },
             Tier::Thorough => Budget { runs: 3_000_000, wall_s: 600 },
         }
     }
